@@ -26,15 +26,18 @@ git -C $WT stash -q
 (cd $WT && PYTHONPATH=$WT timeout 600 /venv/bin/python seed/demo.py >/dev/null 2>&1); WO=$?
 echo "exit=$WO"
 git -C $WT stash pop -q
-echo "== checks against /repo with the change applied"
-git -C /repo apply $PWD/$D/patch.diff || { echo "PATCH DOES NOT APPLY"; exit 3; }
+echo "== checks against a scratch copy of /repo with the change applied"
+SCR=/tmp/scratch/seed_$ID
+rm -rf $SCR; mkdir -p /tmp/scratch
+git -C /repo worktree add -q --detach $SCR HEAD
+git -C $SCR apply $PWD/$D/patch.diff || { echo "PATCH DOES NOT APPLY"; git -C /repo worktree remove --force $SCR; exit 3; }
 [ -z "$CHECKS" ] && CHECKS="C01 C02 C03 C04 C05 C06 C07 C08 C09 C10 C11 C12 C13 C14 C16 C17 C18 C19"
 RES=""
 for c in $CHECKS; do
-  out=$(./check $c --tier ${TIER:-quick} 2>&1); rc=$?
+  out=$(VERIF_REPO_DIR=$SCR VERIF_EVIDENCE_DIR=/tmp/scratch/evid_$ID ./check $c --tier ${TIER:-quick} 2>&1); rc=$?
   echo "$c rc=$rc $(echo "$out" | grep -E 'counterexamples kept|HARNESS|status=' | tr '\n' ' ' | cut -c1-400)"
   RES="$RES $c:$rc"
 done
-git -C /repo checkout -- .
-git -C /repo status --short | head -3
+git -C /repo worktree remove --force $SCR
+rm -rf /tmp/scratch/evid_$ID
 echo "SUMMARY $ID suite='$(cat /tmp/seed_suite.txt)' demo_with=$W demo_without=$WO checks:$RES"
